@@ -546,6 +546,53 @@ func (bc *binCase) runCollect(c *Ctx) *binResult {
 	return decodeBinResult(bc.dim, v, err, c)
 }
 
+// libraryRoutes: see verdict (6); "" = fine
+func (bc *binCase) libraryRoutes() string {
+	var items []value.Value
+	i := 0
+	for _, p := range bc.parts {
+		for _, r := range p {
+			items = append(items, bc.recValue(r, i))
+			i++
+		}
+	}
+	if len(items) < 2 {
+		return ""
+	}
+	names := append([]string{"l"}, binAxisNames[:3*bc.dim]...)
+	args := append([]value.Value{value.NewList(items...)}, bc.axisArgs()...)
+	progs := []string{
+		// groups with interleaved keys (a key comes back after 1, 2, 3 … other keys)
+		"let tagged = l.number((i, e) -> [(i * i + i) % 5, e]); tagged.groupByInt(p -> p[0]).map(q -> " + bc.call("q.values.map(p -> p[1])") + ").collectBinning().values.string() = " + bc.call("l") + ".values.string()",
+	}
+	// a materialised head (from a lazy list: 3 items in capacity 4, 5 items in capacity 8) joined with two tails that fit into its
+	// spare capacity; the first sum is looked at again after the second one was built
+	for _, hs := range [][3]int{{3, 1, 1}, {5, 3, 2}, {5, 1, 3}, {6, 2, 2}} {
+		h, n1, n2 := hs[0], hs[1], hs[2]
+		if len(items) < h+n1+n2 {
+			continue
+		}
+		progs = append(progs, fmt.Sprintf("let base = l.top(%d).map(e -> e).eval(); let r1 = l.skip(%d).top(%d).eval(); let r2 = l.skip(%d).top(%d).eval(); let s1 = base + r1; let s2 = base + r2; ", h, h, n1, h+n1, n2)+
+			"["+bc.call("s1")+".values.string() = ["+bc.call("base")+", "+bc.call("r1")+"].collectBinning().values.string(), "+
+			bc.call("s2")+".values.string() = ["+bc.call("base")+", "+bc.call("r2")+"].collectBinning().values.string(), "+
+			bc.call("s1")+".values.string() = ["+bc.call("base")+", "+bc.call("r1")+"].collectBinning().values.string()].string() = \"[true, true, true]\"")
+	}
+	for _, src := range progs {
+		f, err := binProg(src, names...)
+		if err != nil {
+			fatal("C20: program does not compile: %v (%s)", err, src)
+		}
+		v, err := f.Eval(args...)
+		if err != nil {
+			return "a split / join through the library fails although the whole list bins: " + err.Error()
+		}
+		if b, ok := v.(value.Bool); !ok || !bool(b) {
+			return "the binnings of the library's own parts do not add up to the binning of the whole: " + src
+		}
+	}
+	return ""
+}
+
 // collectTwice: see verdict (5); "" = fine
 func (bc *binCase) collectTwice() string {
 	var parts []value.Value
@@ -816,6 +863,13 @@ func (bc *binCase) checkExact(c *Ctx, whole, coll *binResult) []binVerdict {
 	// (4) additivity: collectBinning over the parts' binnings = binning of the whole (bit for bit)
 	if coll.canon(bc.dim, binBits) != whole.canon(bc.dim, binBits) {
 		out = append(out, binVerdict{"additive:collect-differs", "collectBinning of the parts differs from the binning of the whole list"})
+	}
+	// (6) additivity along the library's own ways to split and join lists: the groups of groupByInt (interleaved keys), and
+	// lists joined with + from a materialised head that is used twice
+	if coll.err == "" && whole.err == "" {
+		if msg := bc.libraryRoutes(); msg != "" {
+			out = append(out, binVerdict{"additive:library-split-differs", msg})
+		}
 	}
 	// (5) the collector is an observer of its parts: the same materialised binnings collected twice, then the first with the
 	// last only, give equal / consistent results, the parts are what they were, and the first result does not change
